@@ -572,8 +572,10 @@ package keeper
 // registered state callback (A-CALLBACK: a callback is registered for every module name stored in a context - checked
 // when the context is created - and does not touch this module's store or escrow accounts)
 //@ func Keeper.OnRequestContextPaused
-//@   property C13, C08
-//@   trusted
-//@   modifies contexts
+//@   property C13, C08, C07
+//@   modifies contexts, *requestContext
+// the caller's context is the one that is paused (the end blocker re-reads its state to decide whether to issue requests)
+//@   ensures paused: requestContext.State == types.PAUSED && requestContext.BatchState == types.BATCHCOMPLETED
+//@   ensures stored: contexts == set(old(contexts), requestContextID, requestContext)
 //@   nopanic
 //@ end
